@@ -10,6 +10,7 @@ import (
 
 	"verif/harness/internal/ev"
 	"verif/harness/internal/oracle"
+	"verif/harness/internal/tabint"
 )
 
 // C04 — precedence and associativity resolve conflicts as documented.
@@ -213,6 +214,39 @@ func c04Check(c c04Case, r *ev.Recorder) *Failure {
 			}
 			if !ok {
 				return failf("prec-mixed-cell", "%s, lookahead %s (shift + several reductions): action %d is not among the candidates %v; grammar: %s", where, g.symName(term), got, w.allowed, g.String())
+			}
+		}
+	}
+	// The same decisions must be visible through the compressed tables the generated parser
+	// reads (optimizeTables, with and without defaultReduce): a shift stays a shift, a reduction
+	// the same reduction, and an error forced by %nonassoc stays an error (defaultReduce may only
+	// replace errors that come from absent cells).
+	for _, dr := range []bool{false, true} {
+		t2, _ := lalr.Compile(lg, lalr.Options{Optimize: true, DefaultReduce: dr})
+		if t2 == nil || t2.Optimized == nil {
+			continue
+		}
+		for si := range l.States {
+			ts := o2t[si]
+			for term, w := range wants[si] {
+				if !w.exact {
+					continue
+				}
+				got := tabint.ActionOptimized(t2.Optimized, ts, term)
+				var ok bool
+				switch {
+				case w.action == -1:
+					ok = got <= -2 // a shift (target state checked by C05)
+				case w.action >= 0:
+					ok = got == w.action
+				default: // error: only cells made errors by %nonassoc are pinned under defaultReduce
+					cells, _ := l.Cells(si)
+					forced := cells[term].Shift || len(cells[term].Reduces) > 0
+					ok = got == -1 || (dr && !forced && got >= 0)
+				}
+				if !ok {
+					return failf("prec-cell-compressed", "state %d, lookahead %s: the documented precedence rule gives action %d (-1 shift, -2 error, n reduce rule n) but the optimized tables (defaultReduce=%v) decode to %d (-1 error, <=-2 shift); grammar: %s", ts, g.symName(term), w.action, dr, got, g.String())
+				}
 			}
 		}
 	}
